@@ -1206,7 +1206,7 @@ impl Mode {
             max_aux: 6,
             max_array: 6,
             long_array: 300,
-            empty_array_weight: if target == Target::Bam { 7 } else { 1 },
+            empty_array_weight: 7,
             max_pos: (1 << 31) - 1,
         }
     }
